@@ -7,6 +7,7 @@ its import list (`DataclassGenerator.render` → `group_by_module` →
 -/
 import XsdataModel.Codegen.Packages
 import XsdataModel.Codegen.Resolver
+import XsdataModel.Codegen.Styles
 
 namespace Xs.Codegen
 open Py
@@ -58,5 +59,16 @@ def layoutNsClusters (nsPackage : Option Str → Str) (cs : List ClassInfo) (vor
   match groupByNamespaceClusters nsPackage cs vorder with
   | .error e => .error (.pkg e)
   | .ok a => (layoutModules cs a).map (fun m => (a, m))
+
+/-- the other structure styles end to end: designation by namespace / all together /
+by file name, then the per-module resolver runs -/
+def layoutStyle (assign : List LocClass → Except PkgErr (List (Str × Str × Str)))
+    (cs : List ClassInfo) (locs : List LocClass) :
+    Except LayoutErr (List (Str × Option (Str × Str)) × List ModuleLayout) :=
+  match assign locs with
+  | .error e => .error (.pkg e)
+  | .ok r =>
+    let a := r.map (fun t => (t.1, some t.2))
+    (layoutModules cs a).map (fun m => (a, m))
 
 end Xs.Codegen
